@@ -595,7 +595,7 @@ def read_published(items):
                     try:
                         if v["codec"] == "avc":
                             spss, ppss = parse_avc_record(v["data"])
-                            out.append(dict(kind="vsh", codec="avc", params=spss + ppss, ts=ts))
+                            out.append(dict(kind="vsh", codec="avc", params=spss + ppss, ts=ts, counts=(len(spss), len(ppss))))
                         else:
                             r = parse_hevc_record(v["data"])
                             out.append(dict(kind="vsh", codec="hevc", params=r.get(32, []) + r.get(33, []) + r.get(34, []), ts=ts))
@@ -828,6 +828,12 @@ def oracle_ts(line_items, out):
         if pid not in (0x100, 0x101):
             return False, "unexpected PID 0x%x" % pid
     late = []
+    # a track whose first message comes after the probe window (16 messages) is not announced in the PMT
+    msg_kinds = [p["kind"] for p in pub if p["kind"] not in ("F", "D")]
+    first_v = next((i for i, k in enumerate(msg_kinds) if k in ("vsh", "video")), None)
+    first_a = next((i for i, k in enumerate(msg_kinds) if k in ("ash", "audio")), None)
+    late_v = first_v is not None and first_v >= 16
+    late_a = first_a is not None and first_a >= 16
     # ---- video
     vexp = expected_video_units(pub)
     vun = units.get(0x100, [])
@@ -835,6 +841,8 @@ def oracle_ts(line_items, out):
         codec = vexp[0]["codec"] if vexp else None
         want_type = {"avc": 0x1B, "hevc": 0x24}.get(codec)
         if 0x100 not in streams or streams[0x100][0] != want_type:
+            if not late_v:
+                return False, "video PID 0x100 carries %s but the PMT declares %r" % (codec, streams.get(0x100))
             late.append("video PID 0x100 carries %s but the PMT declares %r" % (codec, streams.get(0x100)))
     # match units to expected entries in order
     def veq(e, u):
@@ -905,6 +913,8 @@ def oracle_ts(line_items, out):
     if aun:
         want = {"aac": 0x0F, "opus": 0x06}.get(acodec)
         if 0x101 not in streams or streams[0x101][0] != want:
+            if not late_a:
+                return False, "audio PID 0x101 carries %s but the PMT declares %r" % (acodec, streams.get(0x101))
             late.append("audio PID 0x101 carries %s but the PMT declares %r" % (acodec, streams.get(0x101)))
     exp_list = [((f, a, t), m and disposed) for (f, a, t, m) in aexp]
     # without a final Dispose the tail may still be cached: then the recovered frames are a prefix of the mandatory ones
@@ -956,10 +966,40 @@ def oracle_ts(line_items, out):
             if e["pid"] == 0x100 and not e["key"]:
                 return False, "boundary flag on a non-key video frame"
     if late:
-        return False, "LATE-TRACK " + late[0]
+        return False, "LATE-PMT " + late[0]
     if kf:
         return False, "BELOW-BASE " + kf_why
     return True, ""
+
+
+def analysis_end(pub):
+    """index (in pub) of the message with which Rtmp2RtspRemuxer's analysis phase ends, None if it never does:
+    both kinds of header known (video sequence header + AAC sequence header / a G.711 or Opus message / metadata
+    naming such a codec), or 16 other messages cached"""
+    vsh = ash = apt = False
+    cached = 0
+    for i, p in enumerate(pub):
+        k = p["kind"]
+        if k == "meta":
+            if p["acodec"] in (7, 8, 13):
+                apt = True
+            continue
+        if k == "vsh":
+            vsh = True
+        elif k == "ash":
+            ash = True
+        elif k == "audio" and p["codec"] != "aac":
+            apt = True
+            cached += 1
+        elif k in ("audio", "video"):
+            cached += 1
+        elif k == "junk" and p.get("ty") not in (8, 9):
+            cached += 1
+        else:
+            continue
+        if (vsh and (ash or apt)) or cached >= 16:
+            return i
+    return None
 
 
 # ================================================================================================== oracle: c06.rtsp
@@ -997,6 +1037,11 @@ def oracle_rtsp(line_items, out):
             if p["seq"] != i & 0xFFFF:
                 return False, "%s sequence number %d at position %d" % (tr, p["seq"], i)
     late = []
+    end = analysis_end(pub)
+    i_vsh = next((i for i, p in enumerate(pub) if p["kind"] == "vsh"), None)
+    i_ash = next((i for i, p in enumerate(pub) if p["kind"] == "ash"), None)
+    late_v = end is not None and i_vsh is not None and i_vsh > end
+    late_a = end is not None and i_ash is not None and i_ash > end
     # ---- video
     vframes = [p for p in pub if p["kind"] == "video"]
     if pk["v"]:
@@ -1048,6 +1093,10 @@ def oracle_rtsp(line_items, out):
     elif vframes and vsh is not None and any(p["kind"] == "video" and p["nals"] for p in pub):
         exp = [fr for fr in vframes if [x for x in fr["nals"] if nal_type(fr["codec"], x) != AUD_TYPE[fr["codec"]]]]
         if exp:
+            if vsh["codec"] == "avc" and vsh.get("counts") != (1, 1) and not late_v:
+                return False, "MULTI-PS no video packet: the AVC sequence header carries %d SPS and %d PPS" % vsh["counts"]
+            if not late_v:
+                return False, "no video packet although %d frames and a sequence header were published" % len(exp)
             late.append("no video packet although %d frames and a sequence header were published" % len(exp))
     # ---- audio
     aframes = [p for p in pub if p["kind"] == "audio"]
@@ -1082,14 +1131,13 @@ def oracle_rtsp(line_items, out):
                 return False, "audio frame at %d ms differs" % ts
             want = ts * rate // 1000
             if min((p["ts"] - want) % (1 << 32), (want - p["ts"]) % (1 << 32)) > 1:
-                if acodec == "opus" and meta_rate and meta_rate != 48000:
-                    late.append("OPUS-RATE RTP clock follows the metadata rate %d, the SDP says 48000" % meta_rate)
-                else:
-                    return False, "audio RTP time stamp %d for %d ms at %d Hz" % (p["ts"], ts, rate)
+                return False, "audio RTP time stamp %d for %d ms at %d Hz" % (p["ts"], ts, rate)
     elif aframes and (aframes[0]["codec"] != "aac" or ash is not None):
+        if not late_a:
+            return False, "no audio packet although %d frames were published" % len(aframes)
         late.append("no audio packet although %d frames were published" % len(aframes))
     if late:
-        return False, "LATE-TRACK " + late[0]
+        return False, "LATE-SH " + late[0]
     return True, ""
 
 
@@ -1117,10 +1165,12 @@ def classify_finding(c, out):
         return None
     if r[1].startswith("BELOW-BASE"):
         return "C06-F23-timestamp-below-track-base"
-    if r[1].startswith("LATE-TRACK OPUS-RATE"):
-        return "C06-opus-clock-from-metadata"
-    if r[1].startswith("LATE-TRACK"):
-        return "C06-late-track"
+    if r[1].startswith("LATE-PMT"):
+        return "C06-ts-late-track-not-in-pmt"
+    if r[1].startswith("LATE-SH"):
+        return "C06-rtsp-late-sequence-header"
+    if r[1].startswith("MULTI-PS"):
+        return "C06-rtsp-avc-several-parameter-sets"
     return None
 
 
